@@ -9,9 +9,9 @@ use rand::rngs::StdRng;
 use rand::Rng;
 use std::collections::HashMap;
 
-pub fn pick_input(parser: &str, mode: &str, rng: &mut StdRng) -> Vec<u8> {
+pub fn pick_input(parser: &str, mode: &str, lit: &str, rng: &mut StdRng) -> Vec<u8> {
     if mode == "robust" && (parser == "aig" || parser == "aag") && rng.gen_range(0..4) == 0 {
-        return gen::gen_aiger_bounds(parser == "aig", rng);
+        return gen::gen_aiger_bounds(parser == "aig", lit, rng);
     }
     let base = if rng.gen_range(0..4) == 0 {
         let s = gen::seeds(parser);
@@ -139,8 +139,8 @@ pub fn run(opts: &HashMap<String, String>) -> i32 {
             // C06: boundary numerals; each input is run in one read and with 1-byte reads (cold scanner path)
             let flag = rng.gen_range(0..3) == 0;
             let input = match parser {
-                "aag" => gen::gen_aiger_bounds(false, &mut rng),
-                "aig" => gen::gen_aiger_bounds(true, &mut rng),
+                "aag" => gen::gen_aiger_bounds(false, lit, &mut rng),
+                "aig" => gen::gen_aiger_bounds(true, lit, &mut rng),
                 _ => gen::gen_dimacs_bounds(parser, lit, &mut rng),
             };
             let base = RunCfg::reference(parser, lit, flag);
@@ -197,7 +197,7 @@ pub fn run(opts: &HashMap<String, String>) -> i32 {
             runs += 1 + k;
             continue;
         }
-        let input = pick_input(parser, &mode, &mut rng);
+        let input = pick_input(parser, &mode, lit, &mut rng);
         let base = RunCfg::reference(parser, lit, flag);
         run_traced(rid, &input, &base);
         runs += 1;
@@ -211,11 +211,12 @@ pub fn run(opts: &HashMap<String, String>) -> i32 {
                     variant(&base, Policy::Random(9), "random9", [7usize, 8, 9][rng.gen_range(0..3)], 300, s),
                     variant(&base, Policy::Full, "full", 1, 0, s),
                     variant(&base, Policy::Random(5), "random5", 64, 200, s),
+                    variant(&base, Policy::Random(7), "random7", [65537usize, 1 << 20][rng.gen_range(0..2)], 300, s ^ 3),
                 ];
                 for (k, v) in vs.iter().enumerate() {
                     let mut v = v.clone();
                     if k == 5 && !input.is_empty() {
-                        v.bufreader = Some((rng.gen_range(1..=8), 0));
+                        v.bufreader = Some((rng.gen_range(0..=8), 0));
                     }
                     run_traced(rid + 1 + k as u64, &input, &v);
                     runs += 1;
@@ -231,7 +232,7 @@ pub fn run(opts: &HashMap<String, String>) -> i32 {
                     };
                     v.ctor = c;
                     if c == 2 {
-                        v.bufreader = Some((rng.gen_range(1..=24), 0));
+                        v.bufreader = Some((rng.gen_range(0..=24), 0));
                     }
                     run_traced(rid + 900, &input, &v);
                     runs += 1;
@@ -309,7 +310,9 @@ pub fn run(opts: &HashMap<String, String>) -> i32 {
                 }
                 for (j, k) in ks.iter().enumerate() {
                     let mut v = if j % 2 == 0 {
-                        let mut v = variant(&base, Policy::Full, "full", 16384, 0, s ^ ((j as u64) << 20));
+                        // mostly the default chunk size, sometimes a huge one (65537, 1 MiB)
+                        let big = [16384usize, 16384, 16384, 65537, 1 << 20][j / 2 % 5];
+                        let mut v = variant(&base, Policy::Full, "full", big, 0, s ^ ((j as u64) << 20));
                         if parser != "log" && j % 6 == 4 {
                             v.ctor = 1 + (j / 6 % 3) as u8;
                             if v.ctor == 2 {
